@@ -1420,12 +1420,12 @@ def seq_len(v):
     if isinstance(v, Ref):
         v = v.get()
     if isinstance(v, SliceRef):
-        n = 0
-        for x in v.items():
-            n += elem_len(x)
-        return n if v.kind == 'str' else len(v)
+        items = v.items()
+        if v.kind == 'str' or has_wide(items):
+            return len_term(items)
+        return len(v)
     if isinstance(v, (StrBuf, ByteBuf)):
-        return sum(elem_len(x) for x in v.b)
+        return len_term(v.b)
     if isinstance(v, Array):
         return len(v.items)
     if isinstance(v, VecObj):
@@ -1438,6 +1438,70 @@ def elem_len(x):
     if isinstance(x, (DecRun, FloatLit)):
         raise Unsupported('length of a string containing a symbolic number')
     return 1
+
+def has_wide(items):
+    return any(isinstance(x, (WChar, DecRun, FloatLit)) for x in items)
+
+def digits_term(x):
+    """number of decimal digits of the DecRun's value, as a 64-bit term (an if-chain over the value)"""
+    v = x.val
+    if not is_sym(v):
+        return len(str(int(v)))
+    bits = v.size()
+    t = z3.BitVecVal(1, 64)
+    k = 1
+    p = 10
+    while p < (1 << bits):
+        k += 1
+        t = z3.If(z3.UGE(v, z3.BitVecVal(p, bits)), z3.BitVecVal(k, 64), t)
+        p *= 10
+    return t
+
+def len_term(items):
+    """byte length of string/byte elements: a python int, or a 64-bit term when symbolic numbers are part of the text"""
+    n = 0
+    terms = []
+    for x in items:
+        if isinstance(x, DecRun):
+            d = digits_term(x)
+            if is_sym(d): terms.append(d)
+            else: n += d
+        else:
+            n += elem_len(x)
+    if not terms:
+        return n
+    t = z3.BitVecVal(n, 64)
+    for d in terms:
+        t = t + d
+    return z3.simplify(t)
+
+def resolve_offset(I, items, off):
+    """element index of byte offset `off` in `items`; None when the offset is beyond the end.  Offsets that are not on an
+    element boundary (inside a multi-byte element) are not supported."""
+    if not is_sym(off) and not any(isinstance(x, DecRun) and is_sym(x.val) for x in items):
+        pos = 0
+        for i, x in enumerate(items):
+            if pos == off:
+                return i
+            pos += digits_term(x) if isinstance(x, DecRun) else elem_len(x)
+        if pos == off:
+            return len(items)
+        if off > pos:
+            return None
+        raise Unsupported('byte offset inside a multi-byte element')
+    o = bv(off, 64)
+    for i in range(len(items) + 1):
+        p = bv(len_term(items[:i]), 64)
+        d = z3.simplify(p - o)
+        if z3.is_bv_value(d):
+            if d.as_long() == 0:
+                return i
+            continue
+        if I.ctx.must(p == o):
+            return i
+    if I.ctx.must(z3.UGT(o, bv(len_term(items), 64))):
+        return None
+    raise Unsupported('symbolic byte offset does not resolve to an element boundary')
 
 def strip_generics_text(s):
     out = []
